@@ -222,6 +222,12 @@ static void run_pl_enc(hctx* h, ptype t, const uint8_t* img, size_t n, int k, co
         n = bl->n;
     }
     carquet_buffer_t out; carquet_buffer_init(&out);
+    /* every other case (odd count) encodes into a buffer that has been used before: filled with 0xFF, then cleared.  What an
+     * encoder appends must not depend on what the spare capacity of the buffer still holds. */
+    if (n % 2 == 1) {
+        size_t dirty = isz + n + 24; uint8_t* ff = h_alloc(dirty); memset(ff, 0xFF, dirty);
+        (void)!carquet_buffer_append(&out, ff, dirty); carquet_buffer_clear(&out); free(ff);
+    }
     carquet_status_t st;
     switch (t) {
     case T_BOOL: st = carquet_encode_plain_boolean(in, (int64_t)n, &out); break;
